@@ -383,10 +383,10 @@ def main(tier, seed):
     rng = random.Random(seed)
     if tier == "quick":
         hists = mc_histories(rep, 3)
-        if len(hists) > 1200:
+        if len(hists) > 900:
             keys = sorted(hists)
             rng.shuffle(keys)
-            hists = {k: hists[k] for k in keys[:1200]}
+            hists = {k: hists[k] for k in keys[:900]}
             rep.notes["s2c_sampled"] = True
         run_histories(rep, hists, "S->C")
         run_histories(rep, {i: random_history(rng, 25) for i in range(120)}, "C->S")
